@@ -6,6 +6,7 @@ every site and every jump the populated dipole must equal g P(dipole) g^T for EV
 carries the representative there, where P is the harness' independent projector: symmetrise, then average
 over the stabiliser of the representative site / transition (operations mapping the jump onto itself or onto
 its reverse).  QF_LRA, all dipole values."""
+import itertools
 import sys
 
 import numpy as np
@@ -31,6 +32,10 @@ _C = {}
 
 
 def build(case):
+    if case not in _C and case in XCASES:
+        import inter
+        crys, calc, jn = inter.get_calc(case)
+        _C[case] = (crys, calc.chem, calc)
     if case not in _C:
         cname, chem, cut = CASES[case]
         crys = geom.get_crystal(cname)
@@ -97,21 +102,187 @@ def dipoles(case):
     return fn
 
 
+# ---- elastodiffusion is the strain derivative of the diffusivity ------------------------------------------------------------
+EGRID = [0.0, 0.25, -0.5, 0.75, 0.5, -0.25, 1.0, 0.125, -0.125]
+TGRID = [1.0, 1.5, 0.75, 1.25, 2.0, 1.75, 0.5, 1.125, 1.625, 0.875]
+
+
+def strain_derivative(case, k):
+    """energies / prefactors on a fixed grid (instance k), ALL site and transition dipole components symbolic.  The returned
+    elastodiffusion tensor must equal the first-order perturbation of the exact diffusivity D = D0 + b^T omega^+ b under
+    E -> E - P:eps (rates W' = W (P_T - P_i), rho' = rho (P_i - <P>)) plus the geometric term of dx -> (1 + eps) dx:
+        dD = dD0 + sum_i (b_i' (x) G_i + G_i (x) b_i') - sum_ij G_i omega_ij' G_j + 1/2 (delta D + ...),   G = omega^+ b,
+    assembled by the harness in site space with its own dense solve (numpy) and the code's populated dipoles (decided
+    separately above).  Linear in the dipoles: QF_LRA for all dipole values."""
+    def fn(src=None):
+        src = src or Src()
+        crys, chem, calc = build(case)
+        dim, N = crys.dim, calc.N
+        name = 'strain:%s:%d' % (case, k)
+        sym = src.symbolic
+        nw, nt = len(calc.sitelist), len(calc.jumpnetwork)
+        E = np.array([EGRID[(w + k) % len(EGRID)] for w in range(nw)])
+        T = np.array([TGRID[(t + 2 * k) % len(TGRID)] for t in range(nt)])
+        pre = np.array([1.0 + 0.25 * ((w + k) % 3) for w in range(nw)])
+        preT = np.array([1.0 + 0.5 * ((t + k) % 2) for t in range(nt)])
+        sdip = [src.reals('P%d' % w, (dim, dim), -1, 1) for w in range(nw)]
+        tdip = [src.reals('PT%d' % t, (dim, dim), -1, 1) for t in range(nt)]
+        with shim.symbolic_mode():
+            D0c, Dp = calc.elastodiffusion(pre, E, sdip, preT, T, tdip)
+            P = calc.siteDipoles(sdip)
+            PT = calc.jumpDipoles(tdip)
+        # ---- reference (site space, plain numpy for the dipole-independent part)
+        wgt = np.array([pre[calc.invmap[i]] * np.exp(-E[calc.invmap[i]]) for i in range(N)])
+        rho = wgt / wgt.sum()
+        sq = np.sqrt(rho)
+        om = np.zeros((N, N))
+        b = np.zeros((N, dim))
+        D0 = np.zeros((dim, dim))
+        jumps = []
+        for t, jl in enumerate(calc.jumpnetwork):
+            for n, ((i, j), dx) in enumerate(jl):
+                W = preT[t] * np.exp(-T[t]) / wgt[i]
+                jumps.append((i, j, np.asarray(dx, dtype=float), W, t, n))
+                om[i, j] += sq[i] * W / sq[j]
+                om[i, i] -= W
+                b[i] += sq[i] * W * np.asarray(dx, dtype=float)
+                D0 += 0.5 * np.outer(dx, dx) * rho[i] * W
+        G = np.dot(np.linalg.pinv(om, rcond=1e-11), b)           # N x dim
+        D = D0 + np.dot(b.T, G)
+        Pbar = sum(rho[i] * np.asarray(P[i], dtype=object) for i in range(N))
+        ref = np.zeros((dim,) * 4, dtype=object)
+        bp = [[np.zeros((dim, dim), dtype=object) for a in range(dim)] for i in range(N)]    # b_i,a' as a (c,d) tensor
+        for (i, j, dx, W, t, n) in jumps:
+            Pt = np.asarray(PT[t][n], dtype=object)
+            Pi, Pj = np.asarray(P[i], dtype=object), np.asarray(P[j], dtype=object)
+            for a in range(dim):
+                for bb in range(dim):
+                    ref[a, bb] = ref[a, bb] + (0.5 * dx[a] * dx[bb] * rho[i] * W) * (Pt - Pbar)
+                bp[i][a] = bp[i][a] + (sq[i] * W * dx[a]) * (Pt - 0.5 * (Pi + Pbar))
+            dom = (Pt - 0.5 * (Pi + Pj)) * (sq[i] * W / sq[j]) if i != j else None
+            for a in range(dim):
+                for bb in range(dim):
+                    # - G_i,a omega_ij' G_j,b  (off-diagonal part) and - G_i,a omega_ii' G_i,b (escape part: omega_ii' = -W (P_T - P_i))
+                    if i != j:
+                        ref[a, bb] = ref[a, bb] - (G[i, a] * G[j, bb]) * dom
+                    else:
+                        ref[a, bb] = ref[a, bb] - (G[i, a] * G[i, bb] * W) * (Pt - Pi)
+                    ref[a, bb] = ref[a, bb] + (G[i, a] * G[i, bb] * W) * (Pt - Pi)
+        for i in range(N):
+            for a in range(dim):
+                for bb in range(dim):
+                    ref[a, bb] = ref[a, bb] + bp[i][a] * G[i, bb] + bp[i][bb] * G[i, a]
+        for a, bb, c, d in itertools.product(range(dim), repeat=4):
+            geo = 0.5 * ((a == c) * D[bb, d] + (a == d) * D[bb, c] + (bb == c) * D[a, d] + (bb == d) * D[a, c])
+            ref[a, bb][c, d] = ref[a, bb][c, d] + geo
+        obs = []
+        info = src.info(replayer='strain', extra={'case': case, 'k': k})
+        scale = max(float(np.abs(D).max()), 1e-12)
+        tol = 1e-8 * scale
+        for a, bb in itertools.product(range(dim), repeat=2):
+            for c in range(dim):
+                cond = harness.close(np.asarray(Dp[a, bb][c], dtype=object).ravel(), np.asarray(ref[a, bb][c], dtype=object).ravel(), tol)
+                obs.append(('%s:elastodiffusion-is-strain-derivative@%d%d%d' % (name, a, bb, c), cond, dict(info, sig='strain:derivative')))
+        obs.append(('%s:D-is-exact' % name, bool(np.abs(np.asarray(D0c, dtype=float) - D).max() <= 1e-9 * scale), dict(info, sig='strain:D')))
+        if sym:
+            obs.append(('twin:%s' % name, harness.close(np.asarray(Dp[0, 0], dtype=object).ravel(), np.asarray(ref[0, 0], dtype=object).ravel() + 1e-6, tol)))
+        return obs
+    return fn
+
+
+def barrier(cname):
+    """first sentence of the property: diffusivity(CalcDeriv=True) returns (D, Db) with Db = -dD/d(beta) (energies beta*E).
+    ALL energies symbolic (monomial algebra; E and y = exp(E/2) enter as independent reals: an identity in both holds in
+    particular on the curve y = exp(E/2)); the code's own bias solution is lifted to site space and the returned Db must equal
+    minus the first-order perturbation of D = D0 + b^T omega^+ b under beta -> beta (1 + t):
+        W' = -W (E_T - E_i), rho' = -rho (E_i - <E>),  dD = dD0 + sum_i (b_i' (x) G_i + G_i (x) b_i') - sum_ij G_i omega_ij' G_j."""
+    def fn():
+        import inter
+        from symx.core import ENG, Sym
+        crys, calc, jn = inter.get_calc(cname)
+        N, dim = calc.N, calc.dim
+        name = 'barrier:' + cname
+        inp = inter.Inputs(calc, sym_pre=False)
+        (D, Db), cap = inter.run_diffusivity(calc, inp, CalcDeriv=True)
+        sq, _ = inter.code_sqrt_rho(calc, inp)
+        w_, rates = inter.site_weights(calc, inp)
+        Z = sum(w_)
+        rho = [x / Z for x in w_]
+        Es = [inp.E[calc.invmap[i]] for i in range(N)]
+        Eave = sum(rho[i] * Es[i] for i in range(N))
+        G = np.zeros((N, dim), dtype=object)
+        for a, va in enumerate(calc.VectorBasis):
+            for i in range(N):
+                G[i] = G[i] + cap['gamma'][a] * va[i]
+        dD = np.zeros((dim, dim), dtype=object)
+        bp = np.zeros((N, dim), dtype=object)
+        for (i, j, dx, W, t) in rates:
+            ET = inp.T[t]
+            dD = dD - 0.5 * np.outer(dx, dx) * (rho[i] * W * (ET - Eave))
+            bp[i] = bp[i] - (sq[i] * W * (ET - 0.5 * (Es[i] + Eave))) * dx
+            if i != j:
+                dom = -(sq[i] * W / sq[j]) * (ET - 0.5 * (Es[i] + Es[j]))
+                dD = dD - np.outer(G[i], G[j]) * dom
+            # escape part: omega_ii' = +W (E_T - E_i) summed over the jumps leaving i
+            dD = dD - np.outer(G[i], G[i]) * (W * (ET - Es[i]))
+        for i in range(N):
+            dD = dD + np.outer(bp[i], G[i]) + np.outer(G[i], bp[i])
+        obs = []
+        info = {'inputs': inp.inputs, 'replayer': 'barrier', 'extra': {'crystal': cname},
+                'probe': [inter.concrete_instance(inp, k) for k in (0, 3)]}
+        for a in range(dim):
+            for c in range(dim):
+                obs.append(('%s:Db%d%d' % (name, a, c), Db[a, c] == -dD[a, c], dict(info, sig='barrier:Db')))
+        obs.append(('twin:%s' % name, Db[0, 0] == -dD[0, 0] * (1 + 1e-6), {'hyp': inter.concrete_instance(inp), 'timeout_ms': 20000}))
+        return obs
+    return fn
+
+
+def replay_barrier(rec):
+    """-dD/d(beta) by central differences of the real code (beta-scaling of all energies) against the returned Db"""
+    import inter
+    cname = rec['extra']['crystal']
+    crys, calc, jn = inter.get_calc(cname)
+    inp = inter.Inputs(calc, vals=rec['inputs'])
+    pre, E, preT, ET = inp.arrays(symbolic=False)
+    D, Db = calc.diffusivity(pre, E, preT, ET, CalcDeriv=True)
+    h = 1e-5
+    Dp_ = calc.diffusivity(pre, E * (1 + h), preT, ET * (1 + h))
+    Dm_ = calc.diffusivity(pre, E * (1 - h), preT, ET * (1 - h))
+    fd = -(Dp_ - Dm_) / (2 * h)
+    sc = max(np.abs(fd).max(), np.abs(D).max(), 1e-300)
+    if np.abs(fd - Db).max() > 1e-6 * sc:
+        return True, 'Db=%s differs from -dD/dbeta=%s (finite difference) at E=%s ET=%s' % (Db.tolist(), fd.tolist(), list(E), list(ET))
+    return False, 'Db agrees with -dD/dbeta (rel %.1e)' % (np.abs(fd - Db).max() / sc)
+
+
+XCASES = ['X1s', 'X1', 'X4r', 'X2', 'X5', 'X3']
 QUICK = ['hcpoct', 'bccoct', 'rumpled', 'rect2', 'mono', 'honeycomb']
 THOROUGH = QUICK + ['fccint', 'wurtzite']
 
 
 def sections(tier):
     S = run.Section
-    return [S('dipoles:' + c, dipoles(c), budget_s=175 if tier == 'quick' else 1200, replayer='dipoles', config=c, maxpaths=4, timeout_ms=60000)
+    secs = [S('dipoles:' + c, dipoles(c), budget_s=175 if tier == 'quick' else 1200, replayer='dipoles', config=c, maxpaths=4, timeout_ms=60000)
             for c in (QUICK if tier == 'quick' else THOROUGH)]
+    plan = [('X1s', 0), ('X4r', 0), ('X2', 1), ('X5', 0), ('X3', 0), ('hcpoct', 0), ('rect2', 1), ('mono', 0), ('bccoct', 1)] if tier == 'quick' else \
+           [(c, k) for c in XCASES + QUICK + ['fccint', 'wurtzite'] for k in range(3)]
+    for c, k in plan:
+        secs.append(S('strain:%s:%d' % (c, k), strain_derivative(c, k), budget_s=175 if tier == 'quick' else 1200, replayer='strain',
+                      config=c, maxpaths=4, timeout_ms=60000))
+    for c in (['X1s', 'X1', 'X4r'] if tier == 'quick' else ['X1s', 'X1', 'X4r', 'X2', 'X3']):
+        secs.append(S('barrier:' + c, barrier(c), budget_s=175 if tier == 'quick' else 1200, replayer='barrier', config=c, maxpaths=16,
+                      timeout_ms=60000 if tier == 'quick' else 120000))
+    return secs
 
 
 def main():
     import warnings
     warnings.simplefilter('ignore')
     if REPLAY:
-        run.replay_main('C11', {'dipoles': lambda rec: harness.run_laws_concrete(dipoles(rec['extra']['case']), rec)})
+        run.replay_main('C11', {'dipoles': lambda rec: harness.run_laws_concrete(dipoles(rec['extra']['case']), rec),
+                                'barrier': replay_barrier,
+                                'strain': lambda rec: harness.run_laws_concrete(strain_derivative(rec['extra']['case'], rec['extra']['k']), rec)})
     I = OnsagerCalc.Interstitial
     chk = run.Check(
         'C11',
